@@ -37,13 +37,15 @@ def L(n):
 # alphabet: (symbol, header value)
 ALPHABET = [
     ("u5", H("Positive", 5)), ("n5", H("Negative", 5)), ("nmax", H("Negative", 2**64 - 1)), ("f", H("Float", 1.5)),
-    ("false", H("Simple", 20)), ("null", H("Simple", 22)), ("undef", H("Simple", 23)), ("s99", H("Simple", 99)),
+    ("false", H("Simple", 20)), ("false@2", H("Simple", 20)), ("null", H("Simple", 22)), ("undef", H("Simple", 23)), ("s99", H("Simple", 99)),
     ("b2", H("Bytes", L(2))), ("b*", H("Bytes", L(None))), ("t2", H("Text", L(2))), ("t3bad", H("Text", L(3))), ("t*", H("Text", L(None))),
     ("tag", H("Tag", 1)), ("a0", H("Array", L(0))), ("a1", H("Array", L(1))), ("a2", H("Array", L(2))), ("a*", H("Array", L(None))),
     ("m0", H("Map", L(0))), ("m1", H("Map", L(1))), ("m*", H("Map", L(None))), ("brk", H("Break")),
 ]
 SYM = dict(ALPHABET)
 # t3bad: a definite text whose 3-byte payload is not valid UTF-8
+# false@2: simple value 20 in the two-byte form 0xf8 0x14, which RFC 8949 3.3 makes not well-formed
+HEAD_LEN = {"false@2": 2}
 
 
 # ---------------- oracle (RFC 8949, header level) ----------------
@@ -75,6 +77,8 @@ def oracle(seq):
             return ("float", 1.5)
         if s == "false":
             return ("bool", False)
+        if s == "false@2":
+            raise Bad()  # RFC 8949 3.3: 0xf8 followed by a byte below 0x20 is not well-formed
         if s == "null":
             return ("null",)
         if s == "undef":
@@ -138,6 +142,7 @@ class DecoderModel:
         self.q = [(i, SYM[s], s) for i, s in enumerate(seq)]
         self.pending = None  # index/symbol of the header whose payload is to be read next
         self.alloc_from_wire = []
+        self.pos = 0         # byte offset, counted in head bytes (payload bytes do not matter to the rules)
 
     def pull(self):
         if not self.q:
@@ -145,12 +150,15 @@ class DecoderModel:
         i, h, s = self.q.pop(0)
         if s in ("b2", "t2", "t3bad"):
             self.pending = (i, s)
+        self.pos += HEAD_LEN.get(s, 1)
         return ("Ok", _tag_header(h, i, s))
 
     def push(self, h):
         # the pushed-back header keeps its identity
         i, s = h[3] if len(h) > 3 else (None, None)
-        self.q.insert(0, (i, ("enum", h[1], h[2]), s))
+        # ciborium-ll re-encodes a pushed-back header minimally: the length of the head it was read from is lost
+        self.q.insert(0, (i, ("enum", h[1], h[2]), s.split("@")[0] if isinstance(s, str) else s))
+        self.pos -= 1
 
 
 def _tag_header(h, i, s):
@@ -205,7 +213,7 @@ class DecRun:
                     # evaluate argument in the caller's interpreter: not available here -> handled below
                     return NotImplemented
                 if name == "offset":
-                    return OPAQUE
+                    return m.pos
                 if name == "read_exact":
                     return NotImplemented
             return NotImplemented
